@@ -78,7 +78,7 @@ func estimateMatrix(est st.MatrixEstimator, x []ad.ConstMatrix, gamma ad.ConstVe
 func RunMatrixEstimators(c *core.Ctx, checkEM bool) {
 	t := c.Tape
 	cfg := drawPool(t)
-	kind := t.Choose(3)
+	kind := t.Choose(4)
 	if checkEM {
 		kind = 1 + t.Choose(2)
 	}
@@ -142,6 +142,41 @@ func RunMatrixEstimators(c *core.Ctx, checkEM bool) {
 			}}
 			return me.NewMixtureEstimator([]float64{1, 2}, []st.MatrixEstimator{mkId(-1, rows), mkId(1, rows)}, math.Inf(-1), steps, hook)
 		}
+	case 3:
+		// shape HMM: every emission is a matrix distribution over a window of
+		// w consecutive rows, estimated through the batch interface
+		emis = 1
+		w := []int{1, 3, 5}[t.Choose(3)]
+		rows = w
+		what = fmt.Sprintf("matrix:shape-hmm(window=%d,cols=%d,steps=%d)", w, cols, steps)
+		mk = func(tr *[]float64) (st.MatrixEstimator, error) {
+			hook := generic.BaumWelchHook{Value: func(h generic.BasicHmm, i int, likelihood, epsilon float64) {
+				if i > 0 {
+					*tr = append(*tr, likelihood)
+				}
+			}}
+			mkWin := func(a float64) st.MatrixBatchEstimator {
+				cs := make([]st.ScalarBatchEstimator, cols)
+				for j := range cs {
+					cs[j], _ = se.NewCategoricalEstimator([]float64{a, 0.5, 0.5 - a})
+				}
+				row, err := ve.NewScalarBatchId(cs...)
+				if err != nil {
+					panic(err)
+				}
+				rs := make([]st.VectorBatchEstimator, w)
+				for i := range rs {
+					rs[i] = row
+				}
+				e, err := me.NewVectorBatchId(rs...)
+				if err != nil {
+					panic(err)
+				}
+				return e
+			}
+			return me.NewShapeHmmEstimator(ad.NewDenseFloat64Vector([]float64{0.5, 0.5}), ad.NewDenseFloat64Matrix([]float64{0.75, 0.25, 0.375, 0.625}, 2, 2), nil,
+				[]st.MatrixBatchEstimator{mkWin(0.2), mkWin(0.4)}, math.Inf(-1), steps, hook)
+		}
 	default:
 		m := 2
 		what = fmt.Sprintf("matrix:hmm(states=%d,cols=%d,%s,steps=%d)", m, cols, []string{"normal", "categorical"}[emis], steps)
@@ -161,6 +196,14 @@ func RunMatrixEstimators(c *core.Ctx, checkEM bool) {
 		n := rows
 		if kind == 2 {
 			n = t.Range(1, 6) // sequence length
+		}
+		if kind == 3 {
+			// an even number of rows: ShapeHmmAdapter.newObservation feeds its
+			// batch estimator (which it never initialises) only for records with
+			// an odd number of rows, and then with the whole record instead of a
+			// window -- it panics or errors in the sequential run as well, which
+			// is no statement about schedules
+			n = rows + 1 + 2*t.Range(0, 3)
 		}
 		v := make([]float64, n*cols)
 		for i := range v {
@@ -185,6 +228,9 @@ func RunMatrixEstimators(c *core.Ctx, checkEM bool) {
 	}
 	seq := estimateMatrix(e1, recs, gamma, tp.ThreadPool{}, kind != 1)
 	seq.trace = tr1
+	if sequentialPanics(c, seq) {
+		return
+	}
 	e2, _ := mk(&tr2)
 	var par outcome
 	res, abort, pv, site := simRun(c, cfg, func(p tp.ThreadPool) { par = estimateMatrix(e2, recs, gamma, p, kind != 1) })
@@ -307,6 +353,9 @@ func RunWrappers(c *core.Ctx) {
 		return o
 	}
 	seq := run(tp.ThreadPool{})
+	if sequentialPanics(c, seq) {
+		return
+	}
 	var par outcome
 	res, abort, pv, site := simRun(c, cfg, func(p tp.ThreadPool) { par = run(p) })
 	key := what
